@@ -7,6 +7,14 @@ HOOK_COMMITS = ["189fd6a"]
 
 # id -> (technique, level text, level note, design ref)
 CLAIMED = {
+ "C01": ("Lean 4 invariant proof over the transcribed transmit path (QueuePackage/sendPackets/sendPacket/SendRemainingPackets on the PacketQueue model) + packet-level correspondence with the real Channel over a capturing transport",
+         "Proof: for every packet size 9..65535 (containing the negotiable 256..65535), header type, channel id, start number, every list of package encodings and therefore every split over QueuePackage/SendPackage calls, the packets written are exactly: full bodies without EOM followed by one last packet of 1..body-size bytes with EOM, bodies concatenating to the encodings, header length = 8 + body, type/channel/consecutive numbers stamped; the independent wire reader parses the serialised bytes back to these packets; after the flush nothing is left behind; by induction the same for any sequence of messages with packet size changes between them. The exact-multiple defect was found by this check and repaired (fix commit 95c215f).",
+         "Trusted: Lean kernel; hand transcription of channel.go's transmit path tied to the code by the harness (hdr/length/digest of every packet on the wire and queue state compared); packages modelled by their encoding; contexts, LastPkg acceptors and transport write errors not modelled.",
+         "DESIGN.md §7 C01"),
+ "C19": ("Lean 4 theorems over the transcribed capability/range evaluation with the version comparer as an abstract parameter + correspondence with capability.Target (integer comparer and table-shipped results of the default comparer)",
+         "Proof: for all capability lists, ranges and versions, with the comparer abstract: Has is true exactly when some range contains the version (lower inclusive, upper exclusive, missing bound unbounded), capabilities without ranges are never reported, evaluated inverted/zero-width/unparsable ranges surface as errors, and for well-formed input the result is invariant under permutation of ranges and capabilities (given a total preorder). Known finding: the default comparer (hashicorp/go-version) is not a total preorder on dotted pre-release identifiers.",
+         "Trusted: Lean kernel; hashicorp/go-version is a parameter (its results travel in the case line); the oracle's own semver precedence; hand transcription tied to the code by the harness.",
+         "DESIGN.md §7 C19"),
  "C15": ("Lean 4 refinement proof (induction over operation sequences) of the transcribed PacketQueue model against a flat byte FIFO + step-by-step correspondence of the model with the real tds.PacketQueue",
          "Proof: for every operation sequence of the reader discipline (any length, any packets) the queue's answers equal the flat byte FIFO's (same bytes across packet boundaries, not-enough-bytes exactly when too few bytes are available, rollback restores all unread bytes, discard drops no unread byte, no panic); for every sequence of writes at packet sizes 9..65535 (changing between writes) the written bytes lie in packets of the size in force, each full before the next is opened. The model is a hand transcription of packetQueue.go; the tie is the correspondence harness (random + exhaustive-short op sequences incl. undisciplined ones and panics, state compared after every op).",
          "Trusted: Lean kernel; the correspondence harness as the tie between the hand-written model and packetQueue.go; indices modelled as Nat (no negative SetPosition), packet sizes 9..65535; the queue's mutex (no concurrent use of one queue) is not modelled.",
